@@ -11,7 +11,8 @@ inheritance) MRO and each body is abstracted to a list of statements of the litt
                          (local-variable taint, flow-insensitive), rs / ms: instance attributes / self-methods the
                          expression depends on (directly or through locals) -- used for the `deps` table only
     read a               load of self._a            (AttributeError when the attribute was never assigned)
-    call m               self.m(...), super().m(...), load of a property (getter), assignment to a property (setter)
+    call m               self.m(...), super().m(...), Base.m(self, ...), load of a property (getter), assignment to a
+                         property (setter)
     ifNone a k           `if self._a is None:` followed by the k statements of its body
     ret                  return
     abort                raise NotImplementedError at statement level (abstract method)
@@ -239,6 +240,15 @@ class FnScan:
                 if m is None:
                     if f.attr != '__init__':       # object.__init__ is a no-op
                         emit(('unknown', 'super().%s unresolved' % f.attr))
+                else:
+                    target = self.flat.method_id(m[0], m[1], 'init' if f.attr == '__init__' else 'method')
+            elif isinstance(f, ast.Attribute) and isinstance(f.value, ast.Name) and e.args and self.is_self(e.args[0]) \
+                    and f.value.id in [c.name for c in self.flat.chain]:
+                # explicit base-class call  Base.m(self, ...)
+                start = [c.name for c in self.flat.chain].index(f.value.id)
+                m = self.flat.find_method(f.attr, start)
+                if m is None:
+                    emit(('unknown', '%s.%s unresolved' % (f.value.id, f.attr)))
                 else:
                     target = self.flat.method_id(m[0], m[1], 'init' if f.attr == '__init__' else 'method')
             else:
